@@ -4,3 +4,4 @@ import Lace.Basic.Fmt
 import Lace.Spec.ISA
 import Lace.Model.VM
 import Lace.Props.C02
+import Lace.Props.C03
